@@ -174,8 +174,14 @@ def check_compile_loop(ctx: Ctx, ic):
                     binds[s2.targets[0].id] = s2.value
             derived = exp in srcs or any(exp in q.names_in(binds[n]) for n in srcs if n in binds)
             ctx.check(derived, "MP-map-qubit", fi, "the loop's expression is what gets compiled", f"compile_expr(qc, {norm(a1) if a1 is not None else '?'})", "compile_expr is not applied to the loop's expression", s)
-            kw = q.arg(s.value, None, "sym")
-            ctx.check(kw is not None and norm(kw) == sym, "MP-map-qubit", fi, "sym forwarded", "", "sym is not forwarded to compile_expr", s)
+            ce_ = ic.methods.get("compile_expr") if hasattr(ic, "methods") else None
+            ps_ = q.call_params(ce_) if ce_ is not None else []
+            ba_ = q.bound_args(ctx.repo, s.value, ps_) if "sym" in ps_ else None
+            if ba_ is None:
+                ctx.undecided(fi.short, f"`{norm(s.value)[:60]}`: cannot match the arguments with compile_expr's parameters")
+            else:
+                kw = ba_[ps_.index("sym")]
+                ctx.check(kw is not None and norm(kw) == sym, "MP-map-qubit", fi, "sym forwarded", "", f"compile_expr receives sym={norm(kw) if kw is not None else 'nothing'}, not the defined symbol `{sym}`: `a = ~a` and return bits are not recognised", s)
     if res_var is None:
         raise AnchorError(fi.short, "no top-level `x = self.compile_expr(...)` in the loop body")
     maps = [c for s in loop.body if isinstance(s, ast.Expr) for c in [s.value] if isinstance(c, ast.Call) and dotted(c.func) == "qc.map_qubit"]
@@ -243,6 +249,19 @@ def check_expqmap(ctx: Ctx):
         if isinstance(s, ast.Assign) and isinstance(s.targets[0], ast.Subscript) and norm(s.targets[0].value) == "self.exp_map":
             st_idx = i
             ctx.check(norm(s.targets[0].slice) == ps[1] and norm(s.value) == ps[2], "MP-cache-invalidate", si, "exp_map[exp] = qubit", "", "stores something else", s)
+    if rm_idx is None and st_idx is not None:
+        # the eviction written out in place: entries whose value is the qubit are deleted before the store
+        names = {ps[2]}
+        for i, s in enumerate(body[:st_idx]):
+            if isinstance(s, ast.Assign) and len(s.targets) == 1 and isinstance(s.targets[0], ast.Name) and names & q.names_in(s.value):
+                names.add(s.targets[0].id)  # `stale = [e for e, q in self.exp_map.items() if q == qubit]`
+            deletes = [n for n in ast.walk(s) if (isinstance(n, ast.Delete) and any(isinstance(t, ast.Subscript) and norm(t.value) == "self.exp_map" for t in n.targets)) or (isinstance(n, ast.Call) and dotted(n.func) == "self.exp_map.pop")]
+            rebuilt = isinstance(s, ast.Assign) and norm(s.targets[0]) == "self.exp_map" and isinstance(s.value, ast.DictComp)
+            if (deletes or rebuilt) and names & q.names_in(s):
+                rm_idx = i
+            elif deletes or rebuilt:
+                ctx.undecided(si.short, f"`{norm(s)[:60]}` removes entries before the store, but not visibly those of `{ps[2]}`")
+                return
     ctx.check(rm_idx is not None and st_idx is not None and rm_idx < st_idx, "MP-cache-invalidate", si, "previous entry of the qubit dropped first", "self.remove([qubit]) precedes the store", "a qubit can be registered for two expressions at once: the older one is stale", si.node)
     rm = ci.methods.get("remove")
     if rm is None:
